@@ -377,6 +377,7 @@ def optimize_kl(likelihood_energy,
         if dry_run:
             from ..logger import logger
             logger.info(f"Iteration {iglobal} checked")
+            pop_sseq()
             continue
 
         # TODO Distributing the domain of the likelihood is not supported (yet)
@@ -452,6 +453,7 @@ def optimize_kl(likelihood_energy,
         _barrier(comm(iglobal))
 
         if _handle_terminate_callback(terminate_callback, iglobal, comm):
+            pop_sseq()
             break
         _barrier(comm(iglobal))
 
